@@ -3,6 +3,7 @@
   per line. Byte strings are lower-case hex, the empty string is `-`, an absent value is `~`.
 -/
 import SigV4.Model.Validate
+import SigV4.Model.Observe
 import SigV4.Model.Keys
 import SigV4.Model.Sha256
 
@@ -262,6 +263,15 @@ def step (line : String) : String :=
         | .panic p => s!"PANIC {p.replace " " "_"}"
       | .err k => s!"ERR {k.name}"
       | .panic p => s!"PANIC {p.replace " " "_"}"
+    | none => "bad-op"
+  | "OBS" :: rest => match parseCase rest with
+    | some c =>
+      let o := observe H c.cfg scriptProvider [c.entry] c.req
+      let head := match o.out with
+        | .ok _ => "OK"
+        | .err k => s!"ERR {k.name}"
+        | .panic p => s!"PANIC {p.replace " " "_"}"
+      s!"{head} CALLS {o.calls.length} DEBUG {o.debug.length}"
     | none => "bad-op"
   | "VALIDATE" :: rest => match parseCase rest with
     | some c =>
